@@ -87,8 +87,44 @@ func main() {
 		go func(w int) {
 			defer wg.Done()
 			var evals, rs int64
+			// one long-lived instance per worker whose validator count changes with every Reset
+			pn, pcur := 1, uint32(0)
+			persistent, _ := dbft.New[vnet.H](
+				dbft.WithTimer[vnet.H](timerStub{}),
+				dbft.WithGetKeyPair[vnet.H](func([]dbft.PublicKey) (int, dbft.PrivateKey, dbft.PublicKey) { return -1, nil, nil }),
+				dbft.WithCurrentHeight[vnet.H](func() uint32 { return pcur }),
+				dbft.WithCurrentBlockHash[vnet.H](func() vnet.H { return vnet.H{} }),
+				dbft.WithGetValidators[vnet.H](func(...dbft.Transaction[vnet.H]) []dbft.PublicKey { return pubs[:pn] }),
+				dbft.WithNewBlockFromContext[vnet.H](func(*dbft.Context[vnet.H]) dbft.Block[vnet.H] { return nil }),
+				dbft.WithNewConsensusPayload[vnet.H](func(*dbft.Context[vnet.H], dbft.MessageType, any) dbft.ConsensusPayload[vnet.H] { return nil }),
+				dbft.WithNewPrepareRequest[vnet.H](func(uint64, uint64, []vnet.H) dbft.PrepareRequest[vnet.H] { return nil }),
+				dbft.WithNewPrepareResponse[vnet.H](func(vnet.H) dbft.PrepareResponse[vnet.H] { return nil }),
+				dbft.WithNewChangeView[vnet.H](func(byte, dbft.ChangeViewReason, uint64) dbft.ChangeView { return nil }),
+				dbft.WithNewCommit[vnet.H](func([]byte) dbft.Commit { return nil }),
+				dbft.WithNewRecoveryRequest[vnet.H](func(uint64) dbft.RecoveryRequest { return nil }),
+				dbft.WithNewRecoveryMessage[vnet.H](func() dbft.RecoveryMessage[vnet.H] { return nil }),
+			)
+			persistent.Start(0)
+			prng := rand.New(rand.NewSource(r.Seed + int64(w)))
 			for j := range jobs {
 				for n := j.lo; n < j.hi; n++ {
+					// the long-lived instance jumps between validator counts (this n, then a random one)
+					for _, nn := range []int{n, 1 + prng.Intn(maxN), 1 + prng.Intn(40)} {
+						pn = nn
+						pcur = prng.Uint32()
+						persistent.Reset(0)
+						rs++
+						F := (nn - 1) / 3
+						if persistent.N() != nn || persistent.F() != F || persistent.M() != nn-F {
+							fail("quorum-arithmetic-after-validator-set-change", fmt.Sprintf("long-lived instance re-initialised with %d validators reports N/F/M = %d/%d/%d, expected %d/%d/%d", nn, persistent.N(), persistent.F(), persistent.M(), nn, F, nn-F), map[string]any{"N": nn})
+						}
+						for _, v := range []byte{0, 1, 2, 7, 255} {
+							evals++
+							if int(persistent.GetPrimaryIndex(v)) != refPrimary(persistent.BlockIndex, v, nn) {
+								fail("primary-rotation-after-validator-set-change", fmt.Sprintf("N=%d h=%d v=%d: GetPrimaryIndex=%d expected %d", nn, persistent.BlockIndex, v, persistent.GetPrimaryIndex(v), refPrimary(persistent.BlockIndex, v, nn)), map[string]any{"N": nn})
+							}
+						}
+					}
 					cur := uint32(0)
 					d := newInstance(n, &cur, pubs)
 					viaReset := n <= 64 || (uint64(n)*2654435761+uint64(r.Seed))%100 == 0
